@@ -28,15 +28,19 @@ RULE = (
   "reference contact whose geometry and parameters were compared and >=1 has none; distinct = hash of the scenario spec"
 )
 BOUNDS = {
-  "quick": "36 type pairs x 3 orientations x 4 (margin,gap) + static/moving swap on the generic orientation; hfield x 7 types x 2 orientations; param scenes priority^2 x solmix^2 x condim^2 on 2 geom sets + 6 override scenarios",
+  "quick": "36 type pairs x 3 orientations x 4 (margin,gap) + static/moving swap on the generic orientation; hfield x 7 types x 2 orientations; param scenes priority^2 x solmix^2 x condim^2 on 2 geom sets + 5 override scenarios + 12 solref-sign x priority scenarios",
   "thorough": "5 orientations, swap everywhere; param scenes x solref sign x friction x override {none,pair,pair_bigmargin,exclude} x cone",
 }
 ASSUMPTIONS = [
   "MuJoCo C 3.13 is the reference; parameters/presence compared directly (class f32, boundary rule 1e-5 / 5e-5 for convex pairs)",
   "class P pairs (closed-form primitives) compared contact by contact under f32; class C pairs (GJK/EPA, multi-contact, plane-mesh) "
-  "judged by the float64 support-function certificate: |dist - sep(n)| <= 1e-4 + float32 cancellation term, sep(n) within 1e-3 of the best "
-  "of {sep(n_mjw), sep(n_mj), local float64 refinement}; contact counts of class C manifolds only need to be >= 1",
-  "MuJoCo's dist is used for class C only where MuJoCo itself passes the certificate (it does not for some cylinder pairs)",
+  "judged by the float64 support-function certificate: |dist - sep(n)| <= 5e-4 (EPA depth tolerance 1e-6 on curved surfaces) + 0.05*margin "
+  "(margin-inflated shapes) + float32 cancellation term + 4x the deviation MuJoCo's own float64 solver shows on the same input; sep(n) within "
+  "1e-3 (+ the same allowances) of the best of {sep(n_mjw), sep(n_mj), local float64 refinement}; contact counts of class C manifolds only need to be >= 1",
+  "MuJoCo's dist (and presence) is used for class C only where MuJoCo itself passes the certificate (it does not for some cylinder pairs; "
+  "a contact MuJoCo misses although the float64 oracle puts the geoms in range is counted as reference_missed_contact, not as a violation)",
+  "hfield: MJWarp keeps a documented subset of <= 4 per-prism contacts: every MJWarp contact must match one of MuJoCo's (dist 5e-4, pos 1e-3, normal 1e-2) "
+  "and MuJoCo's deepest must be present",
   "NATIVECCD/MULTICCD at their defaults; box/mesh pairs with a margin are 'unsupported' (NotImplementedError) by default and are "
   "additionally run with MULTICCD disabled; hfield contacts are compared as sets (presence, count, deepest distance)",
   "nworld = 6 (one world per separation) for pair scenes, 2 for parameter scenes",
@@ -78,6 +82,10 @@ def scenarios(tier, seed):
       for ov in ("pair", "exclude", "pair_bigmargin"):
         if not (g == "ss" and ov == "pair_bigmargin"):
           out.append(dict(fam="param", geoms=g, prio=[0, 1], solref="pn", fric=1, override=ov, cone="elliptic", variant=v, inner="condim"))
+      # direct (negative) solref x priority order, condim^2 only
+      for sr in ("pn", "nn"):
+        for p in ((0, 0), (1, 0), (0, 1)):
+          out.append(dict(fam="param", geoms=g, prio=list(p), solref=sr, fric=1, override="none", cone="pyramidal", variant=v, inner="condim"))
   else:
     for g in ("ss", "pb"):
       for p in prios:
@@ -250,7 +258,7 @@ def _hfield(scn):
   b = cs.build_hfield(scn)
   if "outcome" in b:
     return dict(ok=True, nontrivial=False, key=util.sha(scn), **b)
-  mjm, qs, cases = b["mjm"], b["qs"], b["cases"]
+  mjm, qs, cases, up = b["mjm"], b["qs"], b["cases"], b["up"]
   margin, gap = scn["margin"], scn["gap"]
   try:
     m, d = cs.run_worlds(mjm, qs)
@@ -269,7 +277,7 @@ def _hfield(scn):
       present = ref or got
       if all(abs(float(k["dist"]) - (margin + gap)) < 5e-5 for k in present):
         continue
-      c.fail(f"presence:{'missing' if ref else 'extra'}:{name}", f"{tag}: MuJoCo {len(ref)} contacts, MJWarp {len(got)}; dist={[round(float(k['dist']), 6) for k in present]}")
+      c.fail(f"presence:{'missing' if ref else 'extra'}:{name}:{_zone(dd, margin)}", f"{tag}: MuJoCo {len(ref)} contacts, MJWarp {len(got)}; dist={[round(float(k['dist']), 6) for k in present]}")
       continue
     if not ref:
       stats["empty"] += 1
@@ -293,8 +301,10 @@ def _hfield(scn):
     for k in got:
       stats["H_matched"] += 1
       if not any(close_to(k, r) for r in ref):
+        nk = np.asarray(k["frame"], np.float64)[0] * (1.0 if int(k["geom"][0]) == 0 else -1.0)
+        kind = "contact_with_normal_into_terrain" if float(nk @ up) < -0.1 else "unmatched_contact"
         c.fail(
-          f"H:{name}:unmatched_contact:{zone}",
+          f"H:{name}:{kind}:{zone}",
           f"{tag}: MJWarp contact dist={float(k['dist']):.5g} n={np.round(np.asarray(k['frame'])[0], 4).tolist()} pos={np.round(k['pos'], 4).tolist()} "
           f"matches none of MuJoCo's {len(ref)} contacts (dist {[round(float(r['dist']), 5) for r in ref]})",
         )
